@@ -341,6 +341,27 @@ fn suite_roundtrip(r: &mut Report) {
                     let (mut h1, mut h2) = (DefaultHasher::new(), DefaultHasher::new());
                     o.hash(&mut h1); rr.hash(&mut h2);
                     if h1.finish() != h2.finish() { fails.push(("C16 equal records hash differently".into(), format!("{:?}", rr))); }
+                    // values that compare equal must hash equally: vary everything equality may ignore
+                    let mut v = rr.clone(); v.ttl = rr.ttl.wrapping_add(1); v.cache_flush = !rr.cache_flush;
+                    let (mut h3, mut h4) = (DefaultHasher::new(), DefaultHasher::new());
+                    v.hash(&mut h3); rr.hash(&mut h4);
+                    if v == *rr && h3.finish() != h4.finish() { fails.push(("C16 records that compare equal hash differently".into(), format!("{:?}", rr))); }
+                    let shown = rr.name.to_string();
+                    if let Ok(n2) = Name::new(&shown) { let (mut h5, mut h6) = (DefaultHasher::new(), DefaultHasher::new()); n2.hash(&mut h5); rr.name.hash(&mut h6);
+                        if n2 == rr.name && h5.finish() != h6.finish() { fails.push(("C16 names that compare equal hash differently".into(), shown.clone())); }
+                        // names differing only in letter case: whatever equality decides, hashing must agree
+                        let up = shown.to_ascii_uppercase();
+                        if let Ok(n3) = Name::new(&up) { let (mut h7, mut h8) = (DefaultHasher::new(), DefaultHasher::new()); n3.hash(&mut h7); rr.name.hash(&mut h8);
+                            if n3 == rr.name && h7.finish() != h8.finish() { fails.push(("C16 names that compare equal hash differently".into(), format!("{} / {}", shown, up))); } }
+                        if n2 != rr.name && rr.name.get_labels().iter().all(|l| l.len() > 0) && Name::new(&shown).map(|x| x.to_string()) == Ok(shown.clone()) && !shown.contains('\u{fffd}') && shown.is_ascii() && !shown.contains("..") {
+                            // same labels built from text and from the wire must be equal
+                            if format!("{:?}", n2) == format!("{:?}", rr.name) { fails.push(("C16 names with the same labels compare unequal".into(), shown)); }
+                        }
+                    }
+                    // owned copy serialises to identical bytes
+                    let mut pa = Packet::new_reply(1); pa.answers.push(rr.clone());
+                    let mut pb = Packet::new_reply(1); pb.answers.push(o.clone());
+                    if pa.build_bytes_vec().ok() != pb.build_bytes_vec().ok() { fails.push(("C16 owned copy serialises differently".into(), format!("{:?}", rr))); }
                 }
             }
             fails
@@ -369,6 +390,19 @@ fn suite_malformed(r: &mut Report, current: &Arc<Mutex<String>>) {
         m.extend_from_slice(b"nopqrstuvwxyz\x00");
         must_accept.push(m.clone());
         bases.push(m);
+    }
+    // accepted-but-unusual shapes that only the parser produces (C11): each is one answer record after a root question
+    let rec = |typ: u16, class: u16, rdata: &[u8]| -> Vec<u8> {
+        let mut m = vec![0, 9, 0x84, 0, 0, 1, 0, 1, 0, 0, 0, 0, 0, 0, 1, 0, 1];
+        m.extend_from_slice(&[1, b'x', 0]); m.extend_from_slice(&typ.to_be_bytes()); m.extend_from_slice(&class.to_be_bytes());
+        m.extend_from_slice(&[0, 0, 1, 0]); m.extend_from_slice(&(rdata.len() as u16).to_be_bytes()); m.extend_from_slice(rdata); m
+    };
+    for m in [rec(47, 1, &[0, 0, 1, 0x40, 1, 0]), rec(47, 1, &[1, b'n', 0, 3, 0]), rec(47, 0x8003, &[0, 2, 2, 0, 1]),   // NSEC with zero-length windows
+              rec(16, 0x8003, &[0]), rec(16, 3, &[1, b'a', 0, 0]), rec(16, 0x80fe, &[0, 0]),                                  // TXT with empty strings, CH/NONE + cache-flush
+              rec(64, 1, &[0, 1, 0, 0, 1, 0, 0, 0, 3, 0, 0]), rec(65, 0x8001, &[0, 0, 1, b't', 0]),                           // SVCB / HTTPS with empty values
+              rec(10, 2, &[]), rec(65280, 0x8004, &[1, 2, 3]), rec(1, 4, &[]), rec(99, 1, &[0xff]),                            // NULL, unknown, empty
+              rec(2, 0x8002, &[0xc0, 0x0c]), rec(6, 1, &[0xc0, 0x0c, 0xc0, 0x11, 0, 0, 0, 1, 0xff, 0xff, 0xff, 0xff, 0, 0, 0, 2, 0x80, 0, 0, 0, 0, 0, 0, 3])] {
+        must_accept.push(m.clone()); bases.push(m);
     }
     for m in &must_accept {
         r.cases += 1;
